@@ -33,6 +33,7 @@ def catalogue():
     for k in ("unknown-method", "unknown-method-typed", "unknown-object", "result-violates-callee",
               "result-violates-caller", "wrong-arity"):
         cat.append(dict(kind=k))
+    cat.append(dict(kind="unknown-method-typed", nested=True))
     for d in (0, 1, 3):
         cat.append(dict(kind="result-unsendable", depth=d))
     return cat
@@ -202,20 +203,32 @@ def judge_batch(ctx, impl, specs, opts, r, sigsuffix=""):
             want = s["v"] if s["kind"] == "ok" else s["v"] + 1
             if d is None or not d["ok"] or d["value"] != want:
                 bad.append(("oracle/sibling-affected", "fault-free call %d (expects %r) got %r" % (i, want, short(d))))
+        elif s["kind"] == "shared":
+            if d is None or not d["ok"] or not impl.shared_ok(s["variant"], d["value"]):
+                bad.append(("oracle/later-call-affected", "fault-free call %d whose argument %r contains the same container more than "
+                            "once was not delivered intact (value and sharing): got %r" % (i, impl.shared_value(s["variant"]), short(d))))
         else:
             why = judge_faulty(impl, s, d, opts)
             if why:
                 sig = "oracle/call-not-failed" if (d is None or d.get("ok")) and s["kind"] != "mixed-keys" else "oracle/failure-misreported"
                 bad.append((sig, "call %d (%s): %s" % (i, s["kind"], why)))
     lt = r["later"]
-    if len(lt) != 1 or not lt[0]["ok"] or lt[0]["value"] != 42:
-        bad.append(("oracle/sibling-affected", "a later call on the same connection got %r" % ([short(x) for x in lt],)))
-    runs = {"ok": "echo", "ok-add": "add", "mixed-keys": "echo", "raise": "boom", "raise-noargs": "boom_noargs",
+    if len(lt) != 2 or not lt[0]["ok"] or lt[0]["value"] != 42:
+        bad.append(("oracle/sibling-affected", "a later call on the same connection got %r" % ([short(x) for x in lt[:1]],)))
+    elif not lt[1]["ok"] or not impl.shared_ok(opts.get("later_shared", "mixed"), lt[1]["value"]):
+        bad.append(("oracle/later-call-affected", "a later call on the same connection, whose argument %r contains the same containers "
+                    "more than once, was not delivered intact (value and sharing): got %r"
+                    % (impl.shared_value(opts.get("later_shared", "mixed")), short(lt[1]))))
+    runs = {"ok": "echo", "ok-add": "add", "shared": "echo", "mixed-keys": "echo", "raise": "boom", "raise-noargs": "boom_noargs",
             "result-violates-callee": "wrongresult", "result-violates-caller": "text", "result-unsendable": "unsendable_result"}
-    want_exec = [runs[s["kind"]] for s in specs if s["kind"] in runs] + ["add"]
+    want_exec = [runs[s["kind"]] for s in specs if s["kind"] in runs] + ["add", "echo"]
     if r["executed"] != want_exec and not any(r["disconnected"]):
         bad.append(("oracle/wrong-calls-executed", "the callee ran %s, the batch asks for %s (a call whose arguments were aborted or "
                     "rejected must not run, every other call must run once, in order)" % (r["executed"], want_exec)))
+    k = r["counters"]
+    if not any(r["disconnected"]) and (k["caller_sent"] != k["callee_seen"] or k["callee_sent"] != k["caller_seen"]):
+        bad.append(("oracle/open-counters-out-of-step", "after the batch the OPEN counters of the two ends differ (%r): `reference` "
+                    "sequences of later calls resolve to the wrong object" % (k,)))
     if r["waiting"]:
         bad.append(("oracle/request-not-retired", "%d PendingRequests left in waitingForAnswers" % r["waiting"]))
     for sig, what in bad[:2]:
@@ -227,11 +240,11 @@ def run_one(ctx, impl, specs, opts, tag, sigsuffix=""):
     with impl.quiet():
         r = impl.run_batch(specs, opts)
     fine = judge_batch(ctx, impl, specs, opts, r, sigsuffix)
-    nontrivial = all(r["fired"]) and all((d is not None and (not d["ok"] or s["kind"] in ("ok", "ok-add", "mixed-keys")))
+    nontrivial = all(r["fired"]) and all((d is not None and (not d["ok"] or s["kind"] in ("ok", "ok-add", "shared", "mixed-keys")))
                                          for s, d in zip(specs, r["results"]))
     ctx.case([tag, specs, opts], nontrivial=nontrivial and fine)
     for s, d in zip(specs, r["results"]):
-        if s["kind"] not in ("ok", "ok-add"):
+        if s["kind"] not in ("ok", "ok-add", "shared"):
             ctx.hist("fault_kind", s["kind"])
             ctx.hist("faulty_outcome", "not-fired" if d is None else "ok" if d["ok"] else
                      ("wrapped " if d["wrapped"] else "") + ("remote " if d["copied"] else "local ") +
@@ -280,6 +293,9 @@ def sweep(ctx, impl):
                     continue
                 specs = [dict(kind="ok", v=100 + i) if i % 2 == 0 else dict(kind="ok-add", v=200 + i) for i in range(3)]
                 specs[pos] = f
+                # after every per-call fault: calls whose arguments share a container, in the same batch and later
+                specs.append(dict(kind="shared", variant=impl.SHARED_VARIANTS[(ci + pos) % 4]))
+                opts = dict(opts, later_shared=impl.SHARED_VARIANTS[(ci + pos + 1 + oi) % 4])
                 r = run_one(ctx, impl, specs, opts, "sweep")
                 kept.append((specs, opts, r))
                 n += 1
@@ -292,12 +308,14 @@ def sweep(ctx, impl):
             if ctx.rng.random() < 0.4:
                 specs.append(ctx.rng.choice(cat))
             else:
-                specs.append(dict(kind="ok", v=ctx.rng.randrange(-5, 10 ** 6)) if ctx.rng.random() < 0.5 else
-                             dict(kind="ok-add", v=ctx.rng.randrange(0, 2 ** 40)))
-        opts = ctx.rng.choice(allopts)
+                u = ctx.rng.random()
+                specs.append(dict(kind="ok", v=ctx.rng.randrange(-5, 10 ** 6)) if u < 0.35 else
+                             dict(kind="ok-add", v=ctx.rng.randrange(0, 2 ** 40)) if u < 0.7 else
+                             dict(kind="shared", variant=ctx.rng.choice(impl.SHARED_VARIANTS)))
+        opts = dict(ctx.rng.choice(allopts), later_shared=ctx.rng.choice(impl.SHARED_VARIANTS))
         r = run_one(ctx, impl, specs, opts, "random")
         kept.append((specs, opts, r))
-        ctx.hist("faults_per_batch", sum(1 for s in specs if s["kind"] not in ("ok", "ok-add")))
+        ctx.hist("faults_per_batch", sum(1 for s in specs if s["kind"] not in ("ok", "ok-add", "shared")))
     ctx.sample(dict(kind="random", specs=kept[-1][0], opts=kept[-1][1], observed=[short(x) for x in kept[-1][2]["results"]]))
     ctx.extra["batches"] = len(kept)
     return kept
@@ -317,7 +335,7 @@ def special(ctx, impl):
             replay = dict(specs=specs, opts=opts, observed=[short(x) for x in r["results"]], disconnected=r["disconnected"])
             sib_bad = [i for i, (s, d) in enumerate(zip(specs, r["results"])) if s["kind"] == "ok" and (d is None or not d["ok"] or d["value"] != s["v"])]
             lt = r["later"]
-            if any(r["disconnected"]) or sib_bad or r["escaped"] or len(lt) != 1 or not lt[0]["ok"]:
+            if any(r["disconnected"]) or sib_bad or r["escaped"] or len(lt) != 2 or not lt[0]["ok"] or not lt[1]["ok"]:
                 ctx.fail("oracle/sibling-affected/" + name,
                          "a fault that belongs to one call (%s) took the connection down: disconnected=%s, sibling calls %s got %s; "
                          "batch %s" % (name, r["disconnected"], sib_bad, [short(r["results"][i]) for i in sib_bad][:2], json.dumps(specs)),
@@ -331,8 +349,9 @@ def special(ctx, impl):
 
 
 # ------------------------------------------------------------------------------------------------ correspondence: send side
-def tree_of(impl, v):
-    """Python value -> Coq `item` term (token values abstracted to 0)"""
+def tree_of(impl, v, seen):
+    """Python value -> Coq `item` term (token values abstracted to 0).  `seen`: ids of the containers already begun in
+    this call's scope -- a second occurrence is sent as a `reference` sequence"""
     if isinstance(v, impl.Unsendable):
         return "Unsendable"
     if isinstance(v, impl.RaisingSlicer):
@@ -349,12 +368,16 @@ def tree_of(impl, v):
         return "Sub [Tok 0; Tok 0]"
     if v is None:
         return "Sub [Tok 0]"
-    if isinstance(v, (list, tuple)):
-        return "Sub " + coq_list(["Tok 0"] + ["(%s)" % tree_of(impl, x) for x in v])
+    if isinstance(v, (list, tuple, dict, set)):
+        if id(v) in seen:
+            return "Sub [Tok 0; Tok 0]"        # ReferenceSlicer: 'reference', refid
+        seen.add(id(v))
+    if isinstance(v, (list, tuple, set)):
+        return "Sub " + coq_list(["Tok 0"] + ["(%s)" % tree_of(impl, x, seen) for x in v])
     if isinstance(v, dict):
         items = []
-        for k in v:          # order is irrelevant for the skeleton when keys and values are primitive
-            items += ["(%s)" % tree_of(impl, k), "(%s)" % tree_of(impl, v[k])]
+        for k in v:          # order is irrelevant for the skeleton when keys are primitive and there is one value
+            items += ["(%s)" % tree_of(impl, k, seen), "(%s)" % tree_of(impl, v[k], seen)]
         return "Sub " + coq_list(["Tok 0"] + items)
     raise ValueError("no tree for %r" % (v,))
 
@@ -365,6 +388,8 @@ def call_tree(impl, spec):
     kw = {}
     if k == "ok":
         args = [spec["v"]]
+    elif k == "shared":
+        args = [impl.shared_value(spec["variant"])]
     elif k == "ok-add":
         args, kw = [spec["v"]], {"b": 1}
     elif k == "unserializable":
@@ -381,6 +406,8 @@ def call_tree(impl, spec):
         args = [spec["cls"], spec["msg"][0], spec["msg"][1]]
     elif k == "raise-noargs":
         args = [spec["cls"]]
+    elif k == "unknown-method-typed" and spec.get("nested"):
+        args = [["one list", ["nested"]], {"k": ("v", [1, 2])}]
     elif k in ("unknown-method", "unknown-method-typed", "unknown-object", "result-violates-callee"):
         args = [1]
     elif k == "result-violates-caller":
@@ -391,16 +418,17 @@ def call_tree(impl, spec):
         args = [1, 2, 3]
     else:
         raise ValueError(k)
-    argitems = ["Tok 0", "Tok 0"] + ["(%s)" % tree_of(impl, a) for a in args]
+    seen = set()
+    argitems = ["Tok 0", "Tok 0"] + ["(%s)" % tree_of(impl, a, seen) for a in args]
     for name in sorted(kw):
-        argitems += ["Tok 0", "(%s)" % tree_of(impl, kw[name])]
+        argitems += ["Tok 0", "(%s)" % tree_of(impl, kw[name], seen)]
     return "Sub [Tok 0; Tok 0; Tok 0; Tok 0; Sub %s]" % coq_list(argitems)
 
 
 def corr_send(ctx, impl, batches):
     """caller side of every batch: the OPEN/CLOSE/ABORT skeleton (with numbers) and the count of primitive tokens written by
     the real Banana.produce vs `run` of lib/Send.v on the trees of the CallSlicers; and which objectSentDeferreds failed"""
-    later = call_tree(impl, dict(kind="ok-add", v=40))
+    later_add = call_tree(impl, dict(kind="ok-add", v=40))
     shard = 150
     nbad = 0
     total = 0
@@ -408,21 +436,21 @@ def corr_send(ctx, impl, batches):
         part = batches[si:si + shard]
         lines = []
         for specs, opts, r in part:
-            trees = [call_tree(impl, s) for s in specs] + [later]
+            trees = [call_tree(impl, s) for s in specs] + [later_add, call_tree(impl, dict(kind="shared", variant=opts.get("later_shared", "mixed")))]
             lines.append("(%s, %s)" % (coq_Z(r["open0"]), coq_list(trees)))
         body = """
 Definition code (t : tok) : Z * Z := match t with TOpen n => (0, n) | TClose n => (1, n) | TAbort n => (2, n) | TData _ => (3, 0) end%Z.
 Definition lcode (o : outcome) : Z := match o with OSent _ => 0 | OAborted => 1 | ONotStarted => 2 end%Z.
 Definition cases : list (Z * list item) := """ + coq_list(lines) + """.
 Eval vm_compute in map (fun c => let s := run (init (fst c)) (flat_map events_of_top (snd c)) in
-                                 (map code (out s), map lcode (log s), up s)) cases.
+                                 (map code (out s), map lcode (log s), up s, cnt s)) cases.
 """
         try:
             (vals,) = ctx.coq_eval("C10_send_%d" % (si // shard), body, requires=REQ_S)
         except common.CoqEvalError as e:
             ctx.fail("correspondence-broken", "lib/Send.v could not be evaluated: " + str(e)[-1500:], has_input=False)
             return
-        for (specs, opts, r), (mout, mlog, mup) in zip(part, vals):
+        for (specs, opts, r), (mout, mlog, mup, mcnt) in zip(part, vals):
             total += 1
             ctx.traces += 1
             real = []
@@ -433,8 +461,13 @@ Eval vm_compute in map (fun c => let s := run (init (fst c)) (flat_map events_of
             for s, d in zip(specs, r["results"]):
                 aborted = s["kind"] in ("unserializable", "slicer-raises", "arg-surrogate") and d is not None and not d["ok"] and not d["copied"]
                 real_log.append(1 if aborted else 0)
-            real_log.append(0)
+            real_log += [0, 0]
             real_up = not r["disconnected"][0]
+            if mup and real_up and not r["disconnected"][1] and (mcnt != r["counters"]["caller_sent"] or mcnt != r["counters"]["callee_seen"]):
+                nbad += 1
+                ctx.fail("correspondence/open-counter", "lib/Send.v numbers the next OPEN %d; the caller's openCount is %d and the callee's "
+                         "objectCounter is %d after batch %s" % (mcnt, r["counters"]["caller_sent"], r["counters"]["callee_seen"], json.dumps(specs)),
+                         replay=dict(specs=specs, opts=opts, model=mcnt, impl=r["counters"]), has_input=False)
             if [tuple(x) for x in mout] != real or mlog != real_log or mup != real_up:
                 nbad += 1
                 if nbad <= 2:
